@@ -188,6 +188,28 @@ BoudotComplete(tl, a, b) ==
         /\ xb - ISqrt(xb) * ISqrt(xb) <= BCftBound(tl, a, b)
 
 (***************************************************************************)
+(* Randomness of the Boudot decomposition.  With r' = 2^T r the prover      *)
+(* commits E_a_1, E_a_2 with randomness r_a1, r_a2 = r' - r_a1 and E_b_1,    *)
+(* E_b_2 with r_b1, r_b2 = -r' - r_b1.  Each part is a linear form over the  *)
+(* values the verifier does not know: r', and the free draws ("ra1", "rb1"   *)
+(* for the library; a prover that derives r_b1 from r_a1 has fewer).  A sum  *)
+(* or difference of two parts that is the zero form makes the product or     *)
+(* quotient of two proof fields a function of the committed value alone: a   *)
+(* guess of the value can then be confirmed from the proof (property C17).   *)
+(***************************************************************************)
+SplitVars == {"r", "ra1", "rb1"}
+Form(r, a, b) == [v \in SplitVars |-> CASE v = "r" -> r [] v = "ra1" -> a [] v = "rb1" -> b]
+SplitParts(dependent) ==
+  << Form(0, 1, 0),                                    \* r_a1
+     Form(1, -1, 0),                                   \* r_a2 = r' - r_a1
+     IF dependent THEN Form(0, -1, 0) ELSE Form(0, 0, 1),      \* r_b1 (dependent: := -r_a1)
+     IF dependent THEN Form(-1, 1, 0) ELSE Form(-1, 0, -1) >>  \* r_b2 = -r' - r_b1
+FAdd(f, g, sg) == [v \in SplitVars |-> f[v] + sg * g[v]]
+ZeroForm == [v \in SplitVars |-> 0]
+NoPublicPair(parts) == \A i, j \in 1 .. 4 : i < j => \A sg \in {1, -1} : FAdd(parts[i], parts[j], sg) # ZeroForm
+AllFourCancel(parts) == FAdd(FAdd(parts[1], parts[2], 1), FAdd(parts[3], parts[4], 1), 1) = ZeroForm
+
+(***************************************************************************)
 (* Links between the sub-proofs of the two composite proofs: which embedded *)
 (* statement is compared with which other value by proof_verify /           *)
 (* verify_proof.  A sub-proof whose statement is not linked can be replaced *)
